@@ -108,17 +108,20 @@ def randint(sym):
 def shuffle_params(tier):
     return [dict(n=n) for n in range(0, 6 if tier=='quick' else 8)]
 
-@obligation('C05','shuffle', bounds={'quick':"n<=5 items; arbitrary uniform stream (each u_i any grid value in [0,1))",'thorough':"n<=6"},
+@obligation('C05','shuffle', bounds={'quick':"n<=5 items given as list (optionally in place), tuple, iterator or generator; arbitrary uniform stream (each u_i any grid value in [0,1))",'thorough':"n<=7"},
             functions=FUNCS, params=shuffle_params, stubs=["uniform stream replaced by arbitrary grid values in [0,1)"])
 def shuffle(sym, n):
     items = [object() for _ in range(n)]
     us = [grid_u(sym, f'k{i}') for i in range(max(0,n))]
-    inplace = sym.flag('inplace')
+    form = sym.choice('given_as', ['list','list_inplace','iterator','generator','tuple'])       # the input may be any iterable, incl. a one-shot one
+    inplace = form == 'list_inplace'
     given = list(items)
     r = with_stream(CobaRandom(1), us)
-    out = r.shuffle(given, inplace=inplace)
-    sym.check(len(out) == n and sorted(map(id,out)) == sorted(map(id,items)), "shuffle returns a permutation of its input")
-    if inplace: sym.check(out is given, "inplace shuffles the given container")
+    arg = {'list': given, 'list_inplace': given, 'iterator': iter(given), 'generator': (x for x in given), 'tuple': tuple(given)}[form]
+    out = r.shuffle(arg, inplace=inplace) if form != 'generator' else r.shuffle(arg)
+    out = list(out)
+    sym.check(len(out) == n and sorted(map(id,out)) == sorted(map(id,items)), f"shuffle of a {form} with {n} items does not return a permutation of its input ({len(out)} items)")
+    if inplace: sym.check(arg is given and given == out, "inplace shuffles the given container")
     else: sym.check(given == items, "shuffle(inplace=False) leaves the input untouched")
 
 @obligation('C05','shuffle_lcg', bounds="n=3 items, real LCG stream from every seed", functions=FUNCS)
@@ -324,6 +327,23 @@ def seeds_other_process(sym):
     if line is None: raise Inconclusive(f"fresh interpreter failed: {out.stderr[-200:]}")
     there = json.loads(line[3:])
     sym.check(here == there, f"CobaRandom({rep!r}) gives seed/stream {here} here but {there} in a fresh interpreter with PYTHONHASHSEED={hs}: not a function of the seed")
+
+@obligation('C05','seeded_filters', bounds="pipes.Shuffle, pipes.Reservoir(count 2), environments.Shuffle and Riffle built with seed in {0,1,7,'abc'} on 5 items: reading the SAME filter object twice, a second object with the same seed, and a pickled copy give the same order",
+            functions=FUNCS+['coba.pipes.filters:Reservoir.filter','coba.pipes.filters:Shuffle.filter'])
+def seeded_filters(sym):
+    import pickle
+    import coba.pipes.filters as pf, coba.environments.filters as ef
+    seed = sym.choice('seed', [0,1,7,'abc'])
+    which = sym.choice('filter', ['pipes.Shuffle','pipes.Reservoir','env.Shuffle','env.Riffle'])
+    if seed == 'abc' and which != 'pipes.Reservoir': sym.assume(False)        # the Shuffle/Riffle filters document integer seeds only
+    mk = {'pipes.Shuffle': lambda: pf.Shuffle(seed), 'pipes.Reservoir': lambda: pf.Reservoir(2, seed=seed), 'env.Shuffle': lambda: ef.Shuffle(seed), 'env.Riffle': lambda: ef.Riffle(2, seed)}[which]
+    if which.startswith('env'): data = lambda: [{'context': i, 'actions': [0,1], 'rewards': [0,1]} for i in range(5)]
+    else: data = lambda: list(range(5))
+    key = (lambda out: [d['context'] for d in out]) if which.startswith('env') else (lambda out: list(out))
+    f = mk()
+    a1 = key(f.filter(data())); a2 = key(f.filter(data())); b = key(mk().filter(data())); c = key(pickle.loads(pickle.dumps(f)).filter(data()))
+    sym.check(a1 == a2, f"{which}(seed={seed!r}): the second read through the same object gives {a2}, the first gave {a1}")
+    sym.check(a1 == b and a1 == c, f"{which}(seed={seed!r}): another object with the same seed / a pickled copy gives {b} / {c}, not {a1}")
 
 # ---------------------------------------------------------------------------------------------------
 def _fp_range(x, lo, hi):
